@@ -7,9 +7,11 @@ Native (bounded) side only.  Three scenario families, all evaluated on the real 
      callable raises at call index i (and pairs i<j) of a short call sequence, the call returns `(result, "success")` when
      the callable returned and `(None, "failed")` when it raised; only `LLMCallException` escapes.
 
-  G  `LLMRails.generate` for both Colang versions on a configuration with an input rail, an output rail and a dialog
-     action, all three implemented by custom actions of the test (registered in several styles).  The actions record
-     every call (turn, site, text, verdict) in a ledger; at global call index i (and pairs i<j) the called action raises.
+  G  `LLMRails.generate` for both Colang versions on configurations with an input rail, an output rail and a dialog
+     action, all implemented by custom actions of the test (registered in several styles; config A: `$ok = <check>` /
+     `if not $ok` -> refuse; config B: the rails additionally call an audit action before refusing and, in 1.0, the check
+     returns a "blocked" flag).  The actions record every call (turn, site, text, verdict) in a ledger; at global call
+     index i (and pairs i<j) the called action - or the constructor of a class-registered action - raises.
      Conversations have 2-3 turns of three kinds (benign / input the rail rejects / LLM text the rail rejects).  Judged from
      the ledger, per turn:
        contain   generate returns normally (an assistant message with text content) within the time limit;
@@ -77,6 +79,7 @@ KINDS = [
     ("MemoryError()", True),
     ("ExceptionGroup", False),
     ("StopIteration()", True),
+    ("custom-exception-whose-str-raises", False),
 ]
 KIND_NAMES = [k for k, _ in KINDS]
 
@@ -104,9 +107,18 @@ class C03FormatError(Exception):
         return "100% {broken} %s %d {0} \n second line"
 
 
+class C03UnprintableError(Exception):
+    def __str__(self):
+        raise TypeError("this exception cannot be rendered")
+
+    __repr__ = __str__
+
+
 def _raise(kind):
     """raise the exception of the given kind the way real action code would"""
     import asyncio
+    if kind == "custom-exception-whose-str-raises":
+        raise C03UnprintableError("x")
     if kind == "RuntimeError('msg')":
         raise RuntimeError("injected fault in the action")
     if kind == "bare-assert":
@@ -246,8 +258,11 @@ DISPATCH_STYLES = ["async-function", "sync-function", "bound-method", "object-wi
 def _dispatcher_checks(rng, tier):
     import asyncio
     import itertools
+    import warnings
     from nemoguardrails.actions.action_dispatcher import ActionDispatcher
     from nemoguardrails.actions.llm.utils import LLMCallException
+    import langchain.chains.base  # noqa: F401  (installs its own warning filters on import)
+    warnings.simplefilter("ignore")     # (the caller wraps this generator in warnings.catch_warnings())
 
     thorough = tier == "thorough"
     col = _Collector("ActionDispatcher.execute_action", DISP, cap=5)
@@ -871,19 +886,19 @@ def _judge(sc, replies, faulted_run):
         out_calls = [e for e in entries if e[1] == "output" and (e[2] is None or marker in str(e[2]))]
         reasons = []     # (is a raise, text)
         if not any(e[2] == turn["user"] or e[3] == "raised-in-ctor" for e in in_calls):
-            reasons.append((False, "input rail action not invoked with this turn's user message"))
+            reasons.append((False, "the input rail action was not invoked with this turn's user message"))
         for e in in_calls:
             if str(e[3]).startswith("raised"):
-                reasons.append((True, "input rail action raised"))
+                reasons.append((True, "the input rail action raised"))
             elif e[3] is False:
-                reasons.append((False, "input rail action returned False"))
+                reasons.append((False, "the input rail action rejected the user message"))
         if not out_calls:
-            reasons.append((False, "output rail action not invoked on the LLM text"))
+            reasons.append((False, "the output rail action was not invoked on the LLM text"))
         for e in out_calls:
             if str(e[3]).startswith("raised"):
-                reasons.append((True, "output rail action raised"))
+                reasons.append((True, "the output rail action raised"))
             elif e[3] is False:
-                reasons.append((False, "output rail action returned False"))
+                reasons.append((False, "the output rail action rejected the LLM text"))
         rail_raised = any(str(e[3]).startswith("raised") and e[1] in ("input", "output", "audit") for e in entries)
         lines = [l for l in content.split("\n")]
         only_refusals = bool(content.strip()) and all(l in allowed_lines for l in lines)
@@ -908,8 +923,6 @@ def _judge(sc, replies, faulted_run):
         elif rail_raised and not only_refusals:
             out.append(("closed", t, "a rail action raised in this turn but the reply is neither a refusal nor the internal-error "
                                      "message: reply=%r; %s" % (content, calls_txt), "not-a-refusal"))
-        if after_fault or (first_fault_turn is not None and t == first_fault_turn and not raised):
-            pass
         if after_fault:
             if not any(e[2] == turn["user"] or e[3] == "raised-in-ctor" for e in in_calls):
                 if not (has_llm and reasons):
@@ -938,7 +951,7 @@ def _generate_checks(rng, tier, version):
     seen_ctor = set()
     world = _World()
     t0 = time.time()
-    budget = 1500.0 if thorough else 26.0
+    budget = 420.0 if thorough else 22.0
     skipped = 0
     n_scen = 0
     n_real_state = 0
@@ -946,7 +959,7 @@ def _generate_checks(rng, tier, version):
         _register_fake_embeddings()
         shapes_main = [("ok", "ok", "bad_out"), ("ok", "bad_in", "ok")]
         shapes_more = [("ok", "ok"), ("bad_in", "ok", "bad_out"), ("ok", "ok", "ok")]
-        kind_cycle = itertools.cycle(KIND_NAMES[:12] if not thorough else KIND_NAMES[:16])
+        kind_cycle = itertools.cycle(KIND_NAMES[:12] if not thorough else KIND_NAMES[:16])    # (StopIteration, the 17th, only in family D)
 
         def describe(faults, sc):
             where = {e[4]: (e[0], e[1], e[2]) for e in sc.log if str(e[3]).startswith("raised")}
@@ -995,19 +1008,22 @@ def _generate_checks(rng, tier, version):
         def modes():
             if version == "1.0":
                 return itertools.cycle(["messages", "messages", "state"])
-            return itertools.cycle(["fast", "fast", "fast", "fast", "real"] if not thorough else ["fast", "real"])
+            return itertools.cycle(["fast"] * 7 + ["real"] if not thorough else ["fast", "fast", "fast", "real"])
 
         mode_cycle = modes()
         shapes_b = [("bad_in", "bad_in", "ok"), ("bad_out", "bad_out", "ok") if version == "1.0" else ("ok", "bad_out")]
         jobs = []
         for si, style in enumerate(STYLES):
-            shapes = (shapes_main + shapes_more) if thorough else (shapes_main if si == 0 else [shapes_more[0]])
+            if thorough:
+                shapes = (shapes_main + shapes_more) if si == 0 else (shapes_main + shapes_more[:1])
+            else:
+                shapes = shapes_main if si == 0 else [shapes_more[0]]
             for shape in shapes:
                 jobs.append(("A", style, shape))
         for si, style in enumerate(STYLES if thorough else [STYLES[0], STYLES[1 + rng.randrange(len(STYLES) - 1)]]):
             for shape in (shapes_b if thorough or si == 0 else shapes_b[:1]):
                 jobs.append(("B", style, shape))
-        for variant, style, shape in jobs:
+        for ji, (variant, style, shape) in enumerate(jobs):
             if time.time() - t0 > budget:
                 skipped += 1
                 continue
@@ -1016,14 +1032,16 @@ def _generate_checks(rng, tier, version):
             n_calls = base_sc.calls
             singles = list(range(1, n_calls + 1))
             pairs = list(itertools.combinations(singles, 2))
-            if not thorough:
+            if thorough:
+                if style != STYLES[0]:
+                    pairs = rng.sample(pairs, min(len(pairs), 8))
+            else:
                 pairs = rng.sample(pairs, min(len(pairs), (10 if variant == "A" else 4) if style == STYLES[0] else 2))
+            all_kinds = thorough and ji == 0
             for i in singles:
-                for k in (KIND_NAMES[:16] if thorough and style == STYLES[0] else [next(kind_cycle)]):
+                for k in ([x for x in KIND_NAMES if x != "StopIteration()"] if all_kinds else [next(kind_cycle)]):
                     if time.time() - t0 > budget:
                         skipped += 1
-                        continue
-                    if k == "StopIteration()":
                         continue
                     mode = next(mode_cycle)
                     n_real_state += mode == "real"
@@ -1056,7 +1074,7 @@ def _generate_checks(rng, tier, version):
              "%d scenarios skipped by the time budget" % (
                  vtag, ", with a blocked-flag check action" if version == "1.0" else "", ", ".join(STYLES),
                  sorted({"%s:%s" % (v, "/".join(sh)) for v, _, sh in jobs}),
-                 "all" if thorough else "10 (first style) / 2-4 (other styles, config B) random", 16 if thorough else 12, n_scen,
+                 "all (first style) / 8 random (other styles)" if thorough else "10 (first style) / 2-4 (other styles, config B) random", 16 if thorough else 12, n_scen,
                  ("multi-turn through the messages history and through state=" if version == "1.0" else
                   "state handed from turn to turn as State object with the JSON encoding skipped, %d conversations through the real JSON state" % n_real_state),
                  skipped))
@@ -1070,11 +1088,262 @@ def _generate_checks(rng, tier, version):
                      "at the scheduled call; %d fault schedules over a 2-turn conversation; all four oracles" % (vtag, len(ctor_faults)))
 
 
+# ---------------------------------------------------------------------------------------------
+# family L: rails shipped in the library, their action replaced by a raising one
+# ---------------------------------------------------------------------------------------------
+_GUARD_OK = {"allowed": True, "policy_violations": []}
+# (package below nemoguardrails/library, direction, flow invocation, registered action name, value that lets the content pass)
+LIB_RAILS_V2 = [
+    ("self_check/input_check", "input", "self check input", "self_check_input", True),
+    ("jailbreak_detection", "input", "jailbreak detection heuristics", "jailbreak_detection_heuristics", False),
+    ("sensitive_data_detection", "input", "detect sensitive data on input", "detect_sensitive_data", False),
+    ("llama_guard", "input", "llama guard check input", "llama_guard_check_input", _GUARD_OK),
+    ("content_safety", "input", 'content safety check input $model="m"', "content_safety_check_input", _GUARD_OK),
+    ("autoalign", "input", "autoalign check input", "autoalign_input_api", {"guardrails_triggered": False, "pii_fast": None}),
+    ("self_check/output_check", "output", "self check output", "self_check_output", True),
+    ("sensitive_data_detection", "output", "detect sensitive data on output", "detect_sensitive_data", False),
+    ("llama_guard", "output", "llama guard check output", "llama_guard_check_output", _GUARD_OK),
+    ("content_safety", "output", 'content safety check output $model="m"', "content_safety_check_output", _GUARD_OK),
+    ("autoalign", "output", "autoalign check output", "autoalign_output_api",
+     {"guardrails_triggered": False, "pii_fast": {"guarded": False, "response": ""}}),
+    ("patronusai", "output", "patronus lynx check output hallucination", "patronus_lynx_check_output_hallucination",
+     {"hallucination": False, "reasoning": ""}),
+]
+LIB_RAILS_V1 = [
+    ("self_check/input_check", "input", "self check input", "self_check_input", True),
+    ("jailbreak_detection", "input", "jailbreak detection heuristics", "jailbreak_detection_heuristics", False),
+    ("sensitive_data_detection", "input", "detect sensitive data on input", "detect_sensitive_data", False),
+    ("llama_guard", "input", "llama guard check input", "llama_guard_check_input", _GUARD_OK),
+    ("activefence", "input", "activefence moderation", "call activefence api", {"max_risk_score": 0.0, "violations": {}}),
+    ("gcp_moderate_text", "input", "gcpnlp moderation", "call gcpnlp api", {"max_risk_score": 0.0, "violations": {}}),
+    ("self_check/output_check", "output", "self check output", "self_check_output", True),
+    ("sensitive_data_detection", "output", "detect sensitive data on output", "detect_sensitive_data", False),
+    ("llama_guard", "output", "llama guard check output", "llama_guard_check_output", _GUARD_OK),
+    ("patronusai", "output", "patronus lynx check output hallucination", "patronus_lynx_check_output_hallucination",
+     {"hallucination": False, "reasoning": ""}),
+]
+
+LIB_V2_CO = """
+import core
+import guardrails
+import nemoguardrails.library.%s
+
+flow main
+  activate greeting
+
+flow greeting
+  user said something
+  $text = await LlmTextAction()
+  bot say $text
+
+flow %s rails $%s_text
+  %s
+"""
+
+LIB_V1_CO = """
+define user express greeting
+  "hello"
+  "hi there"
+
+define flow greeting
+  user express greeting
+  bot express greeting
+"""
+
+LIB_V1_YAML = """
+models:
+  - type: main
+    engine: openai
+    model: gpt-3.5-turbo-instruct
+  - type: embeddings
+    engine: c03_fake_embed
+    model: fake
+rails:
+  %s:
+    flows:
+      - %s
+prompts:
+  - task: self_check_input
+    content: "check {{ user_input }}"
+  - task: self_check_output
+    content: "check {{ bot_response }}"
+  - task: llama_guard_check_input
+    content: "check {{ user_input }}"
+  - task: llama_guard_check_output
+    content: "check {{ user_input }} {{ bot_response }}"
+  - task: patronus_lynx_check_output_hallucination
+    content: "check {{ user_input }} {{ bot_response }}"
+"""
+
+
+def _library_checks(rng, tier, version):
+    import asyncio
+    import contextlib
+    import io
+    import os
+    import time
+    from nemoguardrails import LLMRails, RailsConfig
+    from nemoguardrails.rails.llm import config as config_mod
+    from nemoguardrails.rails.llm import llmrails as llmrails_mod
+    from tests.utils import FakeLLM
+    import nemoguardrails
+
+    thorough = tier == "thorough"
+    vtag = "Colang " + version
+    col = _Collector("LLMRails.generate, %s: rails shipped in the library with a failing action" % vtag, RT1 if version == "1.0" else RT2, cap=8)
+    items = LIB_RAILS_V1 if version == "1.0" else LIB_RAILS_V2
+    n = 0
+    seen = set()
+    not_exercised = []
+    loop = asyncio.new_event_loop()
+    pkg_root = os.path.dirname(os.path.dirname(os.path.abspath(nemoguardrails.__file__)))
+    added_path = False
+    saved_s2j = llmrails_mod.state_to_json
+    t0 = time.time()
+    budget = 120.0 if thorough else 9.0
+    kinds_all = [k for k in KIND_NAMES if k != "StopIteration()"]
+    try:
+        _register_fake_embeddings()
+        if pkg_root not in config_mod.colang_path_dirs:
+            config_mod.colang_path_dirs.append(pkg_root)     # same effect as COLANGPATH=<site dir>: resolves `import nemoguardrails.library...`
+            added_path = True
+        if version != "1.0":
+            llmrails_mod.state_to_json = lambda st: st
+        for idx, (pkg, direction, call, action_name, allow) in enumerate(items):
+            flow_file = "nemoguardrails/library/%s/%s" % (pkg, "flows.v1.co" if version == "1.0" and os.path.exists(
+                os.path.join(pkg_root, "nemoguardrails", "library", pkg, "flows.v1.co")) else "flows.co")
+            kinds = kinds_all if thorough else [kinds_all[(2 * idx) % len(kinds_all)], ["bare-assert", "KeyError()", "asyncio.TimeoutError()"][idx % 3]]
+            for fault_kind in [None] + kinds:
+                if time.time() - t0 > budget:
+                    if fault_kind is None:
+                        not_exercised.append(call + " (time budget)")
+                    break
+                st = dict(calls=0, log=[], turn=0)
+                turns = _make_turns(rng, ("ok", "ok"))
+
+                async def act(_st=st, _k=fault_kind, _allow=allow, **kw):
+                    _st["calls"] += 1
+                    if _k is not None and _st["calls"] == 1:
+                        _st["log"].append((_st["turn"], "raised"))
+                        await _araise(_k)
+                    _st["log"].append((_st["turn"], "returned"))
+                    return _allow
+
+                sink = io.StringIO()
+                try:
+                    with contextlib.redirect_stdout(sink), contextlib.redirect_stderr(sink):
+                        if version == "1.0":
+                            cfg = RailsConfig.from_content(colang_content=LIB_V1_CO, yaml_content=LIB_V1_YAML % (direction, call))
+                        else:
+                            cfg = RailsConfig.from_content(colang_content=LIB_V2_CO % (pkg.replace("/", "."), direction, direction, call),
+                                                           yaml_content=V2_YAML)
+                        llm = FakeLLM(responses=[])
+                        app = LLMRails(cfg, llm=llm)
+                    if action_name not in app.runtime.action_dispatcher.registered_actions:
+                        raise KeyError("library action %r is not registered" % action_name)
+                except Exception as ex:
+                    not_exercised.append("%s (%s)" % (call, _exc_text(ex)[:80]))
+                    break
+                app.register_action(act, action_name)
+                if version != "1.0":
+                    async def llm_text(_st=st, _turns=turns):
+                        return _turns[_st["turn"]]["llm"]
+                    app.register_action(llm_text, "llm_text")
+                replies = []
+                messages = []
+                state = None
+                for t, turn in enumerate(turns):
+                    st["turn"] = t
+                    llm.responses = ["  express greeting", '  "%s"' % turn["llm"]]
+                    llm.i = 0
+                    user_msg = {"role": "user", "content": turn["user"]}
+                    if version == "1.0":
+                        messages.append(user_msg)
+                        factory = lambda: app.generate_async(messages=list(messages))
+                    else:
+                        factory = lambda: app.generate_async(messages=[user_msg], state=state if state is not None else {})
+                    with contextlib.redirect_stdout(sink), contextlib.redirect_stderr(sink):
+                        res, ex = _run_guarded(loop, factory, 20.0)
+                    if ex is not None:
+                        replies.append(("raised", ex))
+                        break
+                    if isinstance(res, dict):
+                        msg = res
+                        messages.append(msg)
+                    else:
+                        msg = res.response[0]
+                        state = res.state["state"]
+                    replies.append(msg)
+                    if fault_kind is None:
+                        break
+                where = ("%s; rail shipped in the library `%s` (%s) configured as %s rail; its action %s replaced by one that %s; " % (
+                    vtag, call, flow_file, direction, action_name,
+                    "returns %r" % (allow,) if fault_kind is None else "raises %s at its first call and returns %r afterwards" % (fault_kind, allow)))
+                if fault_kind is None:
+                    r0 = replies[0]
+                    if isinstance(r0, tuple) or r0.get("content") != turns[0]["llm"] or st["log"] != [(0, "returned")]:
+                        not_exercised.append("%s (fault-free run: reply %r, action calls %r)" % (
+                            call, _exc_text(r0[1]) if isinstance(r0, tuple) else r0.get("content"), st["log"]))
+                        break
+                    continue
+                n += len(replies)
+                seen.add((call, direction, fault_kind))
+                for t, rep in enumerate(replies):
+                    desc = where + "turn %d: user=%r, LLM text=%r" % (t, turns[t]["user"], turns[t]["llm"])
+                    calls_t = [o for tt, o in st["log"] if tt == t]
+                    if isinstance(rep, tuple):
+                        col.add("contain", desc, "generate raised %s; calls of the rail's action in this turn: %s" % (_exc_text(rep[1]), calls_t),
+                                sig=(call, "raised"))
+                        break
+                    content = rep.get("content")
+                    if not isinstance(content, str):
+                        col.add("contain", desc, "generate returned %r" % (rep,), sig=(call, "shape"))
+                        continue
+                    if t == 0:
+                        if calls_t != ["raised"]:
+                            not_exercised.append("%s (faulted run: action calls %r)" % (call, calls_t))
+                        elif turns[0]["marker"] in content:
+                            col.add("lib", desc, "the rail's action raised, the reply is the unchecked LLM text: reply=%r" % content, sig=(call, "open"))
+                    else:
+                        if "returned" not in calls_t:
+                            col.add("active", desc, "in the turn after the fault the rail's action was not invoked: reply=%r, calls of the rail's "
+                                                    "action in this turn: %s" % (content, calls_t), sig=(call, "inactive"))
+                        elif content != turns[t]["llm"]:
+                            col.add("live", desc, "in the fault-free turn after the fault the rail's action returned %r but the reply is %r, "
+                                                  "expected the approved LLM text" % (allow, content), sig=(call, "dead"))
+    finally:
+        llmrails_mod.state_to_json = saved_s2j
+        if added_path:
+            try:
+                config_mod.colang_path_dirs.remove(pkg_root)
+            except ValueError:
+                pass
+        loop.close()
+        try:
+            asyncio.set_event_loop(asyncio.new_event_loop())
+        except Exception:
+            pass
+    yield dict(function=col.function, evaluations=n, distinct=len(seen), failures=len(col.failing()), failing=col.failing(),
+               total_failed_turns=col.count,
+               bound="%s: %d shipped rails (%s), each as the only %s rail of a minimal config, its (network/LLM backed) action replaced by a "
+                     "recorder that raises at its first call (%s exception kinds per rail) and otherwise returns the passing value; 2 turns; "
+                     "oracles: generate returns; turn 0 reply is not the unchecked LLM text; in turn 1 the action is invoked again and the "
+                     "approved LLM text is returned; not exercised: %s" % (
+                         vtag, len(items), ", ".join(i[2] for i in items), "input/output", "all" if thorough else "2", not_exercised or "none"))
+
+
 def native_checks(rng, tier):
     import logging
+    import warnings
     logging.disable(logging.CRITICAL)
-    for rec in _dispatcher_checks(rng, tier):
+    with warnings.catch_warnings():
+        warnings.simplefilter("ignore")
+        recs = list(_dispatcher_checks(rng, tier))
+    for rec in recs:
         yield rec
     for version in ("1.0", "2.x"):
         for rec in _generate_checks(rng, tier, version):
+            yield rec
+    for version in ("1.0", "2.x"):
+        for rec in _library_checks(rng, tier, version):
             yield rec
